@@ -2,7 +2,7 @@
    capi/geos_c.h.in on every run; the theorems about it are finite sweeps (forallb ... = true by vm_compute, lifted with
    forallb_forall), so a changed error value, return type, documented return class or a vanished entry point breaks them. *)
 From Coq Require Import ZArith List Bool String.
-From GeosV.C12 Require Import PoolDefs PoolProofs Ops ApiDefs.
+From GeosV.C12 Require Import PoolDefs PoolProofs Ops ApiDefs Interrupt.
 From GeosV.Gen Require Import C12_api_table.
 Import ListNotations.
 Local Open Scope Z_scope.
@@ -84,6 +84,25 @@ Proof. eexists. split; [reflexivity|]. split; reflexivity. Qed.
 Theorem C12_gen_legal : forall seed nlit len, run ops [] (program ops seed nlit len) <> None.
 Proof. exact (gen_legal ops ops_lit_ok). Qed.
 Print Assumptions C12_gen_legal.
+
+(* ---- interruption (C12/Interrupt.v): a call nobody asked to interrupt completes normally; a delivered interruption consumes the
+   request, so after a request made from outside, or by a callback that requests once, the next call is not asked either ---- *)
+Theorem C12_not_asked_completes : forall n s, asked s = false -> icall n s = (s, false).
+Proof. exact not_asked_completes. Qed.
+Print Assumptions C12_not_asked_completes.
+Theorem C12_delivery_consumes : forall n s s', icall n s = (s', true) ->
+  ipending s' = false /\ icb s' = icb s /\ (ibudget s' <= ibudget s)%nat /\ asked s = true.
+Proof. exact delivery_consumes. Qed.
+Print Assumptions C12_delivery_consumes.
+Theorem C12_next_call_not_asked : forall n s s', (ibudget s <= 1)%nat -> icall n s = (s', true) -> asked s' = false.
+Proof. exact next_call_not_asked. Qed.
+Print Assumptions C12_next_call_not_asked.
+(* register a callback that requests once; the first polling call is interrupted, the second one completes *)
+Example ex_interrupt_once :
+  let s1 := iapply istart (IRegister (Some 1%nat)) in
+  asked s1 = true /\ snd (icall 3 s1) = true /\ icall 3 (fst (icall 3 s1)) = (fst (icall 3 s1), false) /\
+  asked (iapply (iapply istart IRequest) ICancel) = false.
+Proof. repeat split; vm_compute; reflexivity. Qed.
 
 (* ---- non-vacuity ---- *)
 Example ex_program : option_map (@List.length obj) (run ops [] (program ops 20260930 8 40)) = Some 39%nat.
